@@ -56,7 +56,8 @@ theorem loadDoc_complete_two_revisions {d1 : Nat} {es1 : List (Bytes × Obj)} {e
       ((60 :: 60 :: spd1 ++ ebs1 ++ [62, 62]) ++ (sp11 ++ (mid ++ (xb2 ++ (TRAILER_KW ++ (sp02 ++
         ((60 :: 60 :: spd2 ++ ebs2 ++ [62, 62]) ++ (sp12 ++ (STARTXREF ++ (e1 ++ (s1 ++ (ds ++ (s2 ++ (e2 ++
           (EOF_MARK ++ post)))))))))))))))))))
-    (hdef : ∀ k e, newestEntry (tableOf secs2) (tableOf secs1) k = some e → BindingDefined file val cont k e)
+    (hdef : ∀ k e, newestEntry (tableOf secs2) (tableOf secs1) k = some e →
+      BindingDefined file (mergeChain [tableOf secs2, tableOf secs1]) val cont k e)
     (hcont : ∀ k, (∀ off g, newestEntry (tableOf secs2) (tableOf secs1) k ≠ some (.normal off g)) → cont k = [])
     (hlisted : ∀ k, ∀ p ∈ cont k, ∃ i, newestEntry (tableOf secs2) (tableOf secs1) p.1 = some (.compressed k i)) :
     ∃ L, loadDoc file = .ok L ∧ L.version = ver ∧ L.trailer = (setEntries [] es2).remove PREV ∧
@@ -133,7 +134,7 @@ theorem loadDoc_complete_two_revisions {d1 : Nat} {es1 : List (Bytes × Obj)} {e
   -- the objects
   obtain ⟨L, h1, h2, h3, _, _, h6⟩ := loadDoc_of_defined_gen file ver _ (tableOf secs2) _ (setEntries [] es2)
     (mergeChain [tableOf secs2, tableOf secs1]) ((setEntries [] es2).remove PREV) val cont g0 g1 g2 g2' g3 g4 henc hmax
-    (fun k e hke => entryOk_of_binding file val cont k e (hdef k e (by rw [← mergeChain2_get]; exact hke)))
+    (fun k e hke => entryOk_of_binding file _ _ val cont k e (hdef k e (by rw [← mergeChain2_get]; exact hke)))
     (fun k hk => hcont k (fun off g h => hk off g (by rw [mergeChain2_get]; exact h)))
     (fun k p hp => by obtain ⟨i, hi⟩ := hlisted k p hp; exact ⟨i, by rw [mergeChain2_get]; exact hi⟩)
   refine ⟨L, h1, h2, h3, ?_⟩
